@@ -25,7 +25,6 @@ import (
 	"io"
 	"log"
 	"os"
-	"runtime/pprof"
 	"strings"
 	"sync"
 	"sync/atomic"
@@ -138,7 +137,7 @@ func configs(c *lib.Ctx) []*config {
 		}}
 		add(&config{sc: sc,
 			Rows: [][]row{cross(vals, []string{vE, vX}), cross(cks, vals)},
-			Ins:  [][]row{cross(vals, []string{vE}), cross(cks, vals)}}, 4, 5, 2, 2)
+			Ins:  [][]row{cross(vals, []string{vE}), cross(cks, vals)}}, 4, 6, 2, 2)
 	}
 	for _, m := range modes {
 		// 2. composite key with empty fields and zero bytes; the source columns
@@ -162,7 +161,7 @@ func configs(c *lib.Ctx) []*config {
 				Fks:   []fkDef{{Cols: []int{2, 0}, To: 0, ToCols: []int{0, 1}, Mode: m}},
 				Admin: "create c (fk2, ck, fk) key(ck) index(fk, fk2) in p(pk, pk2)" + sfx(m)},
 		}}
-		add(&config{sc: sc, Rows: [][]row{prow, crow}, Ins: [][]row{pins, crow}}, 3, 4, 1, 2)
+		add(&config{sc: sc, Rows: [][]row{prow, crow}, Ins: [][]row{pins, crow}}, 3, 5, 1, 2)
 	}
 	for _, m := range modes {
 		// 3. the foreign key is a prefix of a longer source index
@@ -230,6 +229,35 @@ func configs(c *lib.Ctx) []*config {
 		grow := cross([]string{i1}, append([]string{vE}, vals...))
 		add(&config{sc: sc, Rows: [][]row{cross(vals), crow, grow},
 			Ins: [][]row{cross(vals), cins, grow}}, 4, 6, 1, 2)
+	}
+	for _, m := range modes {
+		// 7. the foreign key is itself a single column KEY of the source table:
+		// its index keys are not encoded, so values with zero bytes (one being a
+		// byte prefix of the other, a 0,0 pair inside) meet the range scans raw
+		vals := []string{vE, vA, vA0, vA00}
+		sc := &schemaDef{Name: "key-as-fk/" + m, Tables: []tableDef{
+			{Name: "p", Cols: []string{"pk"}, Keys: [][]int{{0}},
+				Admin: "create p (pk) key(pk)"},
+			{Name: "c", Cols: []string{"fk", "x"}, Keys: [][]int{{0}},
+				Fks:   []fkDef{{Cols: []int{0}, To: 0, ToCols: []int{0}, Mode: m}},
+				Admin: "create c (fk, x) key(fk) in p(pk)" + sfx(m)},
+		}}
+		add(&config{sc: sc, Rows: [][]row{cross(vals), cross(vals, []string{vE, vX})},
+			Ins: [][]row{cross(vals), cross(vals, []string{vE})}}, 4, 6, 2, 2)
+	}
+	for _, m := range modes {
+		// 8. the foreign key is a UNIQUE index (any number of empty values,
+		// which are stored with the key columns appended)
+		vals := []string{vE, vA, vA0}
+		sc := &schemaDef{Name: "unique-index-fk/" + m, Tables: []tableDef{
+			{Name: "p", Cols: []string{"pk"}, Keys: [][]int{{0}},
+				Admin: "create p (pk) key(pk)"},
+			{Name: "c", Cols: []string{"ck", "fk"}, Keys: [][]int{{0}}, Uniques: [][]int{{1}},
+				Fks:   []fkDef{{Cols: []int{1}, To: 0, ToCols: []int{0}, Mode: m}},
+				Admin: "create c (ck, fk) key(ck) index unique(fk) in p(pk)" + sfx(m)},
+		}}
+		crow := cross([]string{vE, i1, i2}, vals)
+		add(&config{sc: sc, Rows: [][]row{cross(vals), crow}, Ins: [][]row{cross(vals), crow}}, 4, 6, 1, 2)
 	}
 	return out
 }
@@ -688,11 +716,6 @@ func tally(c *lib.Ctx, cf *config, j judged, nops int) {
 
 func run(c *lib.Ctx) {
 	log.SetOutput(io.Discard) // "database corruption detected" etc.
-	if pf := os.Getenv("C08_PROF"); pf != "" {
-		f, _ := os.Create(pf)
-		pprof.StartCPUProfile(f)
-		defer pprof.StopCPUProfile()
-	}
 	// triggers are looked up on every write; there are none
 	db19.MakeSuTran = func(ut *db19.UpdateTran) *core.SuTran { return core.NewSuTran(nil, true) }
 	cfs := configs(c)
@@ -736,16 +759,18 @@ func main() {
 	lib.Main(lib.Spec{
 		ID:    "C08",
 		Level: "model_checking",
-		Rule: "BFS over table contents of 18 foreign key configurations (block / cascade / cascade update x single, composite, prefix-of-index, " +
-			"recursive, two chains); transition = one committed transaction with one operation (all inserts/updates/deletes of the row alphabet) " +
+		Rule: "BFS over table contents of 24 foreign key configurations (block / cascade / cascade update x single, composite, prefix-of-index, " +
+			"recursive, two chains, key as foreign key, unique index as foreign key); transition = one committed transaction with one operation (all inserts/updates/deletes of the row alphabet) " +
 			"plus all ordered pairs of operations in one transaction from the first levels; every transition executed on a fresh db19 database by " +
 			"replaying the path; distinct by construction = (state, transaction) pairs; non-trivial = a foreign key decision was needed " +
 			"(non-empty foreign key on a source row or a target row with matching source rows)",
 		Assumptions: []string{
 			"the reference model is suneidoc/Database/Foreign Keys.md: non-empty fk must match; delete/update of a target with matching sources refused unless the key cascades that change; cascades are transitive; a refused operation changes nothing",
-			"operations whose outcome the documentation does not determine (a row that is its own matching source is updated, or blocks its own delete) accept any outcome that keeps the invariant; such successors are not explored further",
+			"where the documentation leaves the outcome open both readings are accepted and the search follows the implementation: (1) does an EMPTY foreign key match a target row with an empty key, (2) a row of a recursive table that references its own new key or is the only blocker of its own change",
+			"an operation that fails may abort the transaction (then nothing of the transaction is committed and the remaining operations are not issued) or leave it usable (then it must have had no effect)",
 			"sequential only (synchronous checker, CommitMerge after every transaction); the concurrent half of C08 is a separate scenario",
 			"states are merged on table content only (index layer shape differs by path)",
+			"cascading deletes through a reference cycle are executed once per configuration and skipped afterwards if that case fails (each takes seconds)",
 		},
 		QuickBudget:    75,
 		ThoroughBudget: 840,
